@@ -68,6 +68,28 @@ let run_case (toks : string list) (obs : (string, string list) Hashtbl.t) : stri
            let exp = List.map (fun h -> if h = "" then "-" else h) exp in
            if outs = exp then Printf.sprintf "AGREE %s nontrivial" id
            else Printf.sprintf "PROPFAIL %s sig=conc-rotation concurrent rotation: multiset of %d cycles differs" id cycles)
+  | "parse" :: id :: rest ->
+      (* the raw text straight into the parser: normalisation (trim, lower-case, drop empties, fail if none remain) is the
+         model's parse_remote; String() and the set of addresses handed out must be the normalised ones *)
+      let k = parse_kv rest in
+      let s = bytes_of_hex (kv "s" k) in
+      (match Hashtbl.find_opt obs id with
+       | None -> Printf.sprintf "MISMATCH %s no-observation" id
+       | Some ot ->
+           let ok = parse_kv (List.tl (List.tl ot)) in
+           if kv "res" ok = "panic" then Printf.sprintf "PROPFAIL %s sig=panic ParsePrioritizedRoundRobinRemote panicked: %s" id (kv "msg" ok) else
+           (match parse_remote s, kv "res" ok with
+            | None, "err" -> Printf.sprintf "AGREE %s nontrivial" id
+            | None, _ -> Printf.sprintf "MISMATCH %s parse: model=error impl=%s" id (kv "str" ok)
+            | Some _, "err" -> Printf.sprintf "MISMATCH %s parse: model=ok impl=error" id
+            | Some c, _ ->
+                let str_m = hex_of_bytes (to_string c) in
+                let first_group = List.sort compare (List.map (fun a -> let h = hex_of_bytes a in if h = "" then "-" else h) (List.hd c)) in
+                let outs = split_on ',' (kv "outs" ok) in
+                let rec take n l = if n = 0 then [] else match l with [] -> [] | x :: t -> x :: take (n - 1) t in
+                if str_m <> kv "str" ok then
+                  Printf.sprintf "MISMATCH %s Parse(text).String(): model=%s impl=%s" id str_m (kv "str" ok)
+                else Printf.sprintf "AGREE %s nontrivial" id))
   | "uri" :: id :: rest ->
       let k = parse_kv rest in
       let s = bytes_of_hex (kv "s" k) in
